@@ -1,1 +1,5 @@
-// (all actors implemented)
+#include "world.hpp"
+namespace djsim
+{
+bool World::exec_drift_op(const Step&) { return false; }
+}  // namespace djsim
